@@ -143,8 +143,9 @@ Apply(c, st, o, paths) ==
          LET x == GetPath(c, st.root, o.path) IN
          [st |-> Touch(st), ret |-> IF x = Missing THEN (IF o.sv = "dflt" THEN o.val ELSE Err) ELSE x]
     [] o.op = "probe" -> [st |-> Touch(st), ret |-> ProbeRet(c, st, paths, o.val)]
-    [] o.op = "setstate" ->     \* sv in {"dict", "child", "parent"}; o.val = M(content)
-         IF o.sv = "parent" /\ ~FreshRow(c, st)
+    [] o.op = "setstate" ->     \* sv in {"dict", "child", "parent", "parent0"}; o.val = M(content)
+         \* parent merge = {**current, **parent.model_dump()}: every parent field, set explicitly or left at its default
+         IF o.sv \in {"parent", "parent0"} /\ ~FreshRow(c, st)
            THEN [st |-> Write(c, st, M(o.val.m @@ st.root.m)), ret |-> Ok]
            ELSE [st |-> Write(c, st, o.val), ret |-> Ok]
     [] o.op = "clear" -> [st |-> Write(c, st, DefaultRoot(c)), ret |-> Ok]
